@@ -14,14 +14,34 @@ VARIABLE hist
 vars == <<mvars, hist>>
 
 MCConfigs == [n : NRange, to : BOOLEAN, dly : BOOLEAN]
+OutcomesOne   == {<<"ok", 1>>}
 OutcomesSmall == {<<"ok", 1>>, <<"partial", 1>>, <<"fail", 1>>}
 OutcomesMid   == {<<"ok", 1>>, <<"ok", 0>>, <<"partial", 1>>, <<"fail", 1>>, <<"slow", 1>>}
 OutcomesFull  == {"ok", "partial", "fail", "slow"} \X {0, 1, 2}
 
 Init == /\ \E c \in MCConfigs : MInit(c)
         /\ hist = <<>>
-Next == /\ MNext
-        /\ hist' = IF emit' = Null THEN hist ELSE Append(hist, emit')
+\* one named action per action of the model (so that TLC's coverage shows that every one of them is taken), each
+\* recording what it makes observable
+Rec == hist' = IF emit' = Null THEN hist ELSE Append(hist, emit')
+AStartCall    == StartCall /\ Rec
+ASStart       == (\E ok \in BOOLEAN : SStart(ok)) /\ Rec
+AStartRet     == StartRet /\ Rec
+ADelayElapsed == DelayElapsed /\ Rec
+ACall         == Call /\ Rec
+AAccept       == Accept /\ Rec
+AExit         == Exit /\ Rec
+ARel          == (\E o \in Outcomes : Rel(o)) /\ Rec
+AConsRet      == (\E ok \in BOOLEAN : ConsRet(ok)) /\ Rec
+ATick         == Tick /\ Rec
+ASdCall       == SdCall /\ Rec
+ASShut        == (\E ok \in BOOLEAN : SShut(ok)) /\ Rec
+ASdRet        == SdRet /\ Rec
+ASdCall2      == SdCall2 /\ Rec
+ASShut2       == (\E ok \in BOOLEAN : SShut2(ok)) /\ Rec
+ASdRet2       == (\E p \in BOOLEAN : SdRet2(p)) /\ Rec
+Next == \/ AStartCall \/ ASStart \/ AStartRet \/ ADelayElapsed \/ ACall \/ AAccept \/ AExit \/ ARel \/ AConsRet
+        \/ ATick \/ ASdCall \/ ASShut \/ ASdRet \/ ASdCall2 \/ ASShut2 \/ ASdRet2
 Spec == Init /\ [][Next]_vars
 
 NTicks == Cardinality(Pos(hist, "tick"))
